@@ -161,7 +161,12 @@ func c16Round(c *vk.Ctx, r *rand.Rand, round int) bool {
 			switch kind {
 			case "ok":
 				nrep := r.Intn(3)
-				payload := mkUDPPayload(id, nrep, nextSize(), size)
+				rs := nextSize()
+				if r.Intn(5) == 0 {
+					rs = 0 // the target answers with empty datagrams
+					c.Count("zero_length_replies_requested", int64(nrep))
+				}
+				payload := mkUDPPayload(id, nrep, rs, size)
 				pkt = ssUDP(k, randBytes(r, ss), tgt.addr(), payload)
 				exp = c16Expect{"OK", int64(len(pkt)), int64(len(payload))}
 			case "wrong-key":
